@@ -62,3 +62,24 @@ def accumulations(m, fn, res):
                 continue
         out.append({"st": st, "dict": tgt.value, "key": K, "added": added, "loop": loop, "conditional": conditional})
     return out
+
+
+def appends(m, fn, res):
+    """Statements `L.append(X)` inside a loop -> [{st, list (Name node), elt (term of X), loop, conditional}]."""
+    out = []
+    for st in own_statements(fn.node):
+        if not (isinstance(st, ast.Expr) and isinstance(st.value, ast.Call) and isinstance(st.value.func, ast.Attribute) and st.value.func.attr == "append"
+                and isinstance(st.value.func.value, ast.Name) and len(st.value.args) == 1 and not st.value.keywords):
+            continue
+        loop, conditional, p = None, False, getattr(st, "_parent", None)
+        while p is not None and p is not fn.node:
+            if isinstance(p, (ast.If, ast.Try, ast.While)):
+                conditional = True
+            if isinstance(p, ast.For):
+                loop = p
+                break
+            p = getattr(p, "_parent", None)
+        if loop is None:
+            continue
+        out.append({"st": st, "list": st.value.func.value, "elt": res.term(st.value.args[0]), "loop": loop, "conditional": conditional})
+    return out
